@@ -26,7 +26,7 @@ struct Call { size_t s, a, s1, o; double r; bool term1; };
 
 struct Core {
     size_t nb = 2, tcap = 1, O = 2, Amax = 2;
-    bool layered = false;
+    bool layered = false, entropy = false;
     double gamma = 0.5, rmin = 0, rmax = 0, termR = 0;
     std::vector<size_t> numA;                        // per base state
     std::vector<char> term;                          // per base state
@@ -205,7 +205,7 @@ struct CallPlan { unsigned horizon, iters; };
 template <class PlannerT, class FreshF, class AdvF, class DumpF, class HasF>
 static void episode(Core & c, int kind, Rng & rng, const std::vector<CallPlan> & plan, double expl, size_t extraParam,
                     PlannerT & pl, FreshF fresh, AdvF adv, DumpF dump, HasF hasChild, bool pomdp) {
-    Line run; run << "C19" << (kind == 3 ? "rrun" : "run"); putCore(run, c, kind); run << (expl > 0.0) << extraParam;
+    Line run; run << "C19" << (kind == 3 ? "rrun" : "run"); putCore(run, c, kind); run << expl << extraParam << c.entropy;
     std::vector<std::string> extra;
     size_t sTrue = 0;          // true environment state: base 0 at time 0 is never terminal
     size_t rootT = 0;          // time layer of the current root
@@ -311,11 +311,24 @@ static const long kWitness = 4;
 long verif::verif_ncases(const std::string & tier) { return kWitness + (tier == "thorough" ? 9000 : 2000); }
 
 void verif::verif_case(Rng & rng, long idx, const std::string & tier) {
+    if (idx == 0) {
+        // the driver evaluates `log`/`sqrt` itself (Lean Float -> libm); make sure both sides use the same functions:
+        // samples of the three expressions the planners evaluate, compared bit for bit by the driver
+        Line l; l << "C19" << "lib" << (size_t)48;
+        for (unsigned k = 1; k <= 48; ++k) {
+            double lg = std::log(k + 1.0);
+            double bon = 0.7 * std::sqrt(lg / (double)(1 + k % 7));
+            double p = (double)(1 + k % 5) / (double)(k + 5); double pl = p * std::log(p);
+            l << lg << bon << pl;
+        }
+        l.emit();
+    }
     bool witness = idx < kWitness;
-    int kind = witness ? (int)(idx % 4) : (int)rng.below(5);     // 4 = MCTS on a hashed non-integral state type
+    int kind = witness ? (int)(idx % 4) : (int)rng.below(6);     // 4 = MCTS on a hashed non-integral state type, 5 = rPOMCP with the entropy measure
     unsigned maxSteps = 0;
     auto plan = genPlan(rng, tier, witness, maxSteps);
-    Core c; genCore(c, rng, kind, witness, maxSteps);
+    Core c; genCore(c, rng, kind == 4 ? 1 : (kind == 5 ? 3 : kind), witness, maxSteps);
+    c.entropy = kind == 5;
     c.rng = Rng(rng.next());
     AIToolbox::Seeder::setRootSeed((unsigned)rng.next());   // the planners seed their own engine from the global Seeder: make the case replayable
     static const double es[] = {1.0, 0.5, 4.0, 100.0, 0.0};
@@ -350,13 +363,21 @@ void verif::verif_case(Rng & rng, long idx, const std::string & tier) {
             [&](size_t a, size_t k, unsigned h) { return pl.sampleAction(a, k, h); },
             [&](Line & l, Path & p, size_t & n) { dumpPomcp(pl.getGraph(), p, l, n); },
             [&](size_t a, size_t k) { auto & g = pl.getGraph(); return a < g.children.size() && g.children[a].children.count(k) > 0; }, true);
-    } else {
+    } else if (kind == 3) {
         unsigned kk = 1 + (unsigned)rng.below(12);
         GMFixed m; m.c = &c; AIToolbox::POMDP::rPOMCP<GMFixed, false> pl(m, 1 + rng.below(6), 1, expl, kk);
-        episode(c, kind, rng, plan, expl, kk, pl,
+        episode(c, 3, rng, plan, expl, kk, pl,
             [&](const std::vector<size_t> & s, unsigned h) { return pl.sampleAction(mkBelief(c, s), h); },
             [&](size_t a, size_t k, unsigned h) { return pl.sampleAction(a, k, h); },
             [&](Line & l, Path & p, size_t & n) { dumpR<false>(pl.getGraph(), p, l, n); },
+            [&](size_t a, size_t k) { auto & g = pl.getGraph(); return a < g.children.size() && g.children[a].children.count(k) > 0; }, true);
+    } else {
+        unsigned kk = 1 + (unsigned)rng.below(12);
+        GMFixed m; m.c = &c; AIToolbox::POMDP::rPOMCP<GMFixed, true> pl(m, 1 + rng.below(6), 1, expl, kk);
+        episode(c, 3, rng, plan, expl, kk, pl,
+            [&](const std::vector<size_t> & s, unsigned h) { return pl.sampleAction(mkBelief(c, s), h); },
+            [&](size_t a, size_t k, unsigned h) { return pl.sampleAction(a, k, h); },
+            [&](Line & l, Path & p, size_t & n) { dumpR<true>(pl.getGraph(), p, l, n); },
             [&](size_t a, size_t k) { auto & g = pl.getGraph(); return a < g.children.size() && g.children[a].children.count(k) > 0; }, true);
     }
 }
